@@ -16,13 +16,21 @@ TRUSTED = []
 
 
 def make_shape(rng):
-    fam = rng.choice(['convex', 'star', 'star', 'comb', 'spiral', 'lattice', 'bigstar', 'lobes', 'lobes', 'lobes'])
+    fam = rng.choice(['convex', 'star', 'star', 'comb', 'spiral', 'lattice', 'bigstar', 'lobes', 'lobes', 'lobes', 'dart', 'dart'])
     if fam == 'convex': b = G.convex_polygon(rng, n=rng.randint(3, 12))
     elif fam == 'star': b = G.star_polygon(rng, n=rng.randint(4, 30), R=rng.choice([10.0, 100.0]))
     elif fam == 'bigstar': b = G.star_polygon(rng, n=rng.randint(81, 120), R=1000.0, bits=12)
     elif fam == 'comb': b = G.comb_polygon(rng, teeth=rng.choice([2, 3, 5, 9, 20, 29]))
     elif fam == 'spiral': b = G.spiral_polygon(rng)
     elif fam == 'lobes': b = G.lobed_polygon(rng)
+    elif fam == 'dart':
+        # concave quadrilateral (and pentagon with one reflex vertex), the reflex vertex at every position of the list
+        w, h = G.dy(rng.uniform(2, 9)), G.dy(rng.uniform(2, 9)); t = G.dy(rng.uniform(0.2, 0.8) * h)
+        ox, oy = G.rpt2(rng, 50)
+        b = [(ox, oy), (ox + w, oy + t), (ox + 2 * w, oy), (ox + w, oy + h)]      # reflex at index 1
+        if rng.random() < 0.3:
+            b = [(ox, oy), (ox + w, oy + t), (ox + 2 * w, oy), (ox + 2 * w, oy + h), (ox + w, oy + h + t)]
+        k = rng.randrange(len(b)); b = b[k:] + b[:k]
     else: b = G.lattice_polygon(rng, ncells=rng.randint(3, 16), w=7, h=7)[0]
     nh = rng.choice([0, 0, 1, 2, 4, 6]) if fam in ('convex', 'star', 'bigstar') else (rng.choice([0, 1, 2, 3]) if fam == 'lobes' else 0)
     hs = G.holes_in(rng, b, nh) if nh else []
